@@ -353,10 +353,11 @@ theorem ws_reader_no_oob_partial (mode : Mode) (accept : Bytes) (chunks : List B
   constructor <;> split <;> simp
 
 /-- (full strength, no hypothesis on the bytes) for EVERY byte stream and every segmentation the reader stays
-inside its buffers: no index ≥ 160 into `http_hdr`, none ≥ 14 into `rd_header`, the bytes carried over after the
-empty line fit `rd_header`, no byte read that was not written — also for header blocks outside `hsCleanOf` -/
+inside its buffers — no index ≥ 160 into `http_hdr`, none ≥ 14 into `rd_header`, the bytes carried over after the
+empty line fit `rd_header`, no byte read that was not written — and never stalls with bytes available (every
+`coap_read_session` call consumes at least one byte or closes); also for header blocks outside `hsCleanOf` -/
 theorem ws_reader_no_oob (mode : Mode) (accept : Bytes) (chunks : List Bytes) :
-    (wsObs (Coap.M.Ws.feed mode accept {} chunks)).2 ≠ .oob := by
+    (wsObs (Coap.M.Ws.feed mode accept {} chunks)).2 ≠ .oob ∧ (wsObs (Coap.M.Ws.feed mode accept {} chunks)).2 ≠ .stuck := by
   have := feed_safe mode accept chunks {} (Or.inl ⟨rfl, rfl, by decide, rfl, rfl, rfl⟩)
   generalize Coap.M.Ws.feed mode accept {} chunks = r at this
   obtain ⟨ms, sess, stuck⟩ := r
@@ -364,22 +365,25 @@ theorem ws_reader_no_oob (mode : Mode) (accept : Bytes) (chunks : List Bytes) :
   | oob => exact this.elim
   | closed => simp [wsObs]
   | «open» st' =>
-    simp only [wsObs]
-    split <;> simp
+    obtain ⟨_, hst⟩ := this
+    subst hst
+    simp [wsObs]
 
-/-- the reader state at the end of every run that leaves the session open is covered by the invariant: still in
-the handshake with a line buffer in which `strchr` finds no LF, or in the frame phase at a parser position of S -/
-theorem ws_reader_final_state_safe (mode : Mode) (accept : Bytes) (chunks : List Bytes) (st' : Coap.M.Ws.St)
+/-- (full strength) no message is held back, for EVERY byte stream: when the session is open after the last chunk
+the reader is either still in the handshake (line buffer below its capacity, `strchr` finds no LF in it) or at a
+frame-parser position `p` of S — a proper prefix of one frame, in which S finds no message -/
+theorem ws_reader_final_state (mode : Mode) (accept : Bytes) (chunks : List Bytes) (st' : Coap.M.Ws.St)
     (h : (Coap.M.Ws.feed mode accept {} chunks).2.1 = .open st') :
-    (st'.up = false ∧ lfIdx st'.httpHdr = none ∧ st'.httpHdr.length < httpCap) ∨ ∃ p, WsInv mode st' (.fr p) := by
+    (st'.up = false ∧ lfIdx st'.httpHdr = none ∧ st'.httpHdr.length < httpCap) ∨
+    ∃ p, WsInv mode st' (.fr p) ∧ wsAbs st' = .fr p ∧ frames mode (p.length + 1) p = ([], false) := by
   have := feed_safe mode accept chunks {} (Or.inl ⟨rfl, rfl, by decide, rfl, rfl, rfl⟩)
   generalize Coap.M.Ws.feed mode accept {} chunks = r at this h
   obtain ⟨ms, sess, stuck⟩ := r
   simp only at h
   subst h
-  rcases this with hs | hfr
+  rcases this.1 with hs | ⟨p, hfr⟩
   · exact Or.inl ⟨hs.1, hs.2.1, by have := hs.2.2.1; simp only [httpCap] at *; omega⟩
-  · exact Or.inr hfr
+  · exact Or.inr ⟨p, hfr, wsAbs_of_inv mode st' _ hfr, frOf_pend mode st' p hfr⟩
 
 /-! ### non-vacuity -/
 
@@ -408,7 +412,7 @@ theorem ws_blank_led_line_differs :
     hsCleanOf .server [] {} (asc "GET /.well-known/coap HTTP/1.1\r\n x\r\n") = false := by decide +kernel
 /-- … and there the reader still stays inside its buffers (`ws_reader_no_oob` needs no hypothesis) -/
 example : (wsObs (Coap.M.Ws.feed .server [] {} (segment (asc "GET /.well-known/coap HTTP/1.1\r\n x\r\n") [3, 20]))).2 ≠ .oob :=
-  ws_reader_no_oob _ _ _
+  (ws_reader_no_oob _ _ _).1
 /-- frame phase, client side: 16-bit length form, three frames, cut in the extended length / after the header /
 one byte per read — and 17 frames without data in front of a message (the model's former fuel bound) -/
 example : wsObs (Coap.M.Ws.feed .client [] { up := true } (segment [0x82, 0x7e, 0, 3, 1, 1, 0xaa, 0x82, 0, 0x82, 2, 0, 2] [3, 1, 5])) =
